@@ -189,6 +189,10 @@ def correspondence(ctx):
         for r in ex.map(_worker, [(ctx.repo, iso, name, copy.deepcopy(o)) for iso, name, o in jobs], chunksize=1):
             judge(ctx, r)
     ctx.extra["grid_jobs"] = len(jobs)
+    # the world aggregate under the global variants of the base preset and of two shut-off schedules
+    for sh in (["long_delayed_shutoff"] if ctx.quick else ["long_delayed_shutoff", "continued", "immediate", "continued_after_10_percent_fed"]):
+        r = _worker((ctx.repo, "WOR", "world:shutoff=" + sh, pipeline.options(scale="global", shutoff=sh)))
+        judge(ctx, r)
     ctx.extra["exhaustive_over_grid"] = not ctx.quick
 
 
